@@ -137,7 +137,6 @@ Section Fuel.
       destruct (is_page d && false); [discriminate|exact (Hgen _ _ eq_refl)].
     - destruct o as [|tg v|z|nm|k|l|d|d x]; try (exact (Hgen _ _ eq_refl)); try discriminate.
       destruct (is_page d && true); [discriminate|exact (Hgen _ _ eq_refl)].
-    - discriminate.
   Qed.
   Local Transparent deep_values.
 
